@@ -57,3 +57,102 @@ def judge(ctx) -> None:
     if cfg.ind_b & 8:
         if not any(i[1][2][:2] == (0, 0) for i in fin_b):
             w.violate("C03.receiver_success", locus, f"finished indications at receiver: {[i[1][2] for i in fin_b]}")
+
+
+# ---------------------------------------------------------------------------------------------
+# sweep: every schedule with K <= 2 faults on small files (the "exhaustively for K<=2" part of the quantifier)
+
+from cfdpsim.tape import Tape  # noqa: E402
+from cfdpsim.world import ACK, Cfg, World  # noqa: E402
+from props.pops import Ctx, _start  # noqa: E402
+
+SWEEP_RULE = (
+    "every fault schedule with K=1 (fault kind in drop / duplicate at once / duplicate 1.2 s later / delay 0.3 / 1.2 / 2.6 s "
+    "on the n-th PDU handed to the link, either direction, n = 1 .. number of PDUs of the fault-free run + 2) and, tier "
+    "thorough: every schedule with K=2 (kinds drop / duplicate / delay 1.2 s on PDUs n1 < n2 <= N + 6), tier quick: every "
+    "third K=2 schedule; x immediate / deferred NAK x closure on / off x file sizes 0, 1 segment, 3.5 segments; limits K+1"
+)
+K1_KINDS = ["drop", "dup0", "dup1200", "delay300", "delay1200", "delay2600"]
+K2_KINDS = ["drop", "dup0", "delay1200"]
+
+
+def _sweep_cfg(p):
+    K = len(p["faults"])
+    f = {"mode": ACK, "shell": "history", "metadata_only": False, "poll_ms": 100, "imm_nak": bool(p["imm"]), "closure": bool(p["closure"]),
+         "size_sel": p["size_sel"], "ack_lim": K + 1, "nak_lim": K + 1, "vfs": "mem", "ind_a": 15, "ind_b": 15, "msgs": 0}
+    return Cfg.draw(Tape(values=[]), f)
+
+
+def _fault_free_pdus(p) -> int:
+    q = dict(p, faults=[])
+    r = run_sweep(q, count_only=True)
+    return r
+
+
+def SWEEP(tier):
+    cells = []
+    for imm in (1, 0):
+        for closure in (0, 1):
+            for size_sel in (3, 1, 6):
+                base = {"imm": imm, "closure": closure, "size_sel": size_sel}
+                n = _fault_free_pdus(dict(base, faults=[]))
+                for n1 in range(1, n + 3):
+                    for k in K1_KINDS:
+                        cells.append(dict(base, faults=[[n1, k]]))
+                i = 0
+                for n1 in range(1, n + 1):
+                    for n2 in range(n1 + 1, n + 7):
+                        for k1 in K2_KINDS:
+                            for k2 in K2_KINDS:
+                                i += 1
+                                if tier == "thorough" or i % 3 == 0:
+                                    cells.append(dict(base, faults=[[n1, k1], [n2, k2]]))
+    return cells
+
+
+def run_sweep(p, count_only=False):
+    cfg = _sweep_cfg(p)
+    t = Tape(values=[])
+    w = World(t, cfg)
+    ctx = Ctx(w, "sweep_K%d" % len(p["faults"]))
+    plan = {int(n): k for n, k in p["faults"]}
+    K = len(plan)
+    state = {"n": 0, "hit": 0}
+
+    def hook(src, dst, em, key):
+        state["n"] += 1
+        k = plan.get(state["n"])
+        if k is None:
+            return None
+        state["hit"] += 1
+        w.link.hit_log.append((k, key, em.info, w.a.handlers["src"].step.name, w.b.handlers["dst"].step.name))
+        w.link.fired[k.rstrip("0123456789")] = w.link.fired.get(k.rstrip("0123456789"), 0) + 1
+        if k == "drop":
+            return ("drop",)
+        if k.startswith("dup"):
+            return ("dup", int(k[3:]))
+        return ("delay", int(k[5:]))
+
+    w.link.hook = hook
+    try:
+        ctx.info["K"] = K
+        longest = max(cfg.ack_s, cfg.nak_s)
+        bound_ms = int((2 * cfg.ack_lim + cfg.nak_lim + 6) * longest * 1000) + 2600 + 1000
+        w.max_events = 20000
+        w.max_t = 3_000_000
+        _start(ctx, None)
+
+        def until(w_):
+            last = w_.link.last_fault_t or 0
+            return w_.clock.t > last + bound_ms and (state["hit"] == K or w_.clock.t > bound_ms * 2)
+
+        ctx.reason = w.run(until=until) if K else w.run()
+        if count_only:
+            return state["n"]
+        ctx.nontrivial = K >= 1 and state["hit"] == K
+        judge(ctx)
+        r = from_world(w, ctx.pop, ctx.nontrivial)
+        r.cfg = dict(r.cfg, sweep=p)
+        return r
+    finally:
+        w.close()
